@@ -341,10 +341,10 @@ def refsOfKids {V : Type} : List (Slot × Sch V) → List RK
 end
 
 mutual
-/-- a v2 input schema of the convertible fragment: v2 references only -/
+/-- a v2 input schema of the convertible fragment: v2 references only, no v3 keyword `nullable` -/
 def v2Refs {V : Type} : Sch V → Bool
   | .ref k _ => k.isV2
-  | .node _ kids => v2RefsKids kids
+  | .node h kids => !h.nullable && v2RefsKids kids
 def v2RefsKids {V : Type} : List (Slot × Sch V) → Bool
   | [] => true
   | (_, c) :: rest => v2Refs c && v2RefsKids rest
